@@ -215,6 +215,18 @@ UNITS["C13"] = [
     _k("c13_lexer_cover", "fea-rs", "fea-rs/src/parse/lexer.rs", [], "complete", "", "", "identifier, non-ASCII character, number reachable in the companion's input generator", kind="cover", timeout_s=1800, on_demand=True),
 ]
 
+_IR = "fontir/src/ir.rs"
+for _nm, _fn, _dom, _pre, _post in [
+    ("c19_glyph_height_in_range_is_exact_rounding", "height", "every explicit height h with -0.5 <= h < 65535.5; loop-free", "h fits the vmtx advance field", "result == floor(h + 0.5)"),
+    ("c19_glyph_height_out_of_range_never_wraps", "height", "every finite h outside [-0.5, 65535.5); loop-free", "h does not fit", "result is the nearest bound (0 / 65535): never a wrapped value"),
+    ("c19_glyph_height_out_of_range_is_not_silently_stored", "height", "every finite h >= 65535.5; loop-free", "h does not fit", "from the property statement: the value must not be stored as something else (FAILS today: known finding C19-advance-height-saturates)"),
+    ("c19_vertical_origin_in_range_is_exact_rounding", "vertical_origin", "every v with -32768.5 <= v < 32767.5; loop-free", "v fits i16", "result == floor(v + 0.5)"),
+    ("c19_vertical_origin_out_of_range_never_wraps", "vertical_origin", "every finite v outside that range; loop-free", "v does not fit", "result is the nearest bound: never a wrapped value"),
+    ("c19_vertical_origin_out_of_range_is_not_silently_stored", "vertical_origin", "every finite v outside that range; loop-free", "v does not fit", "from the property statement: the value must not be stored as something else (FAILS today: known finding C19-vertical-origin-saturates)"),
+]:
+    UNITS["C19"].insert(-1, _k(_nm, "fontir", _IR, [f"fontir::ir::GlyphInstance::{_fn}"], "complete", _dom, _pre, _post, timeout_s=120))
+UNITS["C19"].insert(-1, _k("c19_glyph_height_cover", "fontir", _IR, [], "complete", "", "", "ordinary, saturated and fallback paths reachable", kind="cover", timeout_s=120))
+
 # C19 cross-listing: MetricsBuilder::update's i16 clamps / overflow freedom are also a C19 obligation
 UNITS["C19"].insert(-1, dict(next(u for u in UNITS["C17"] if u["obligation"] == "c17_metrics_update_contract")))
 
